@@ -1,13 +1,12 @@
 (** C14 — random access returns each chunk's exact data regardless of request history.
     Only statements; every proof is [exact lemma].
-    Scope of the proof (PARTIAL for the property as a whole): files whose chunks are decoded
-    as a unit (zstd) and that carry no dictionary, every sequence of data / stored-data
-    requests, every hash and decoder.  Dictionary files and uncompressed files are covered
-    by the exhaustive and random request sequences of the correspondence run (and by the
-    non-vacuity examples below for the toy instances). *)
+    Scope of the proofs: [C14_request_sequence] covers both compression types, files with
+    and without dictionary chunk (the first data request imports the dictionary), every
+    sequence of data / stored-data requests, every hash and decoder.  The earlier
+    [C14_request_sequence_zstd_nodict_partial] is kept for the files that import it. *)
 From ZV Require Import Base.Bytes Gen.GenConsts Format.Compint Format.Header Format.ParseImpl Format.ParseProofs
                        Format.ParseExamples Read.ReadSpec Read.CompRead Read.ReadLemmas Read.ReadProofs
-                       Read.ReadAccess Read.ReadExamples.
+                       Read.ReadAccess Read.ReadAccess2 Read.ReadExamples.
 Local Open Scope N_scope.
 
 (** T14.1 for a file the specification verifies and decodes: whatever was requested before,
@@ -33,6 +32,31 @@ Proof.
   exact (requests_zstd_nodict H zdecomp h f Hz fuel content B Hfu Hv Hd Hph Hfuel rq _ Hval R1 R2).
 Qed.
 Print Assumptions C14_request_sequence_zstd_nodict_partial.
+
+(** T14.1 in full: both compression types, with and without dictionary.  For a file the
+    specification verifies and decodes, every sequence of requests over entry numbers (data
+    with a buffer of the declared size, stored data with a buffer of the stored size; any
+    order, any repetition, the dictionary entry and the last chunk included) returns, for a
+    data request, exactly [spec_chunk_data] of that entry - with its declared size - and for
+    a stored-data request exactly the stored bytes, whose hash is the index digest.  The
+    result of a request is a function of the entry alone, hence independent of the history.
+    Side condition, zstd only: no entry without stored bytes declares a size (no real zstd
+    stream decodes nothing to something; for type 0 the specification already excludes it).
+    [fuel] only has to cover the largest stored chunk + 4 loop iterations. *)
+Theorem C14_request_sequence :
+  forall (H : N -> bytes -> bytes) (zdecomp : option bytes -> bytes -> N -> option bytes) p f h fuel content rq,
+  wf_bytes f -> parse_impl H p f = POk h ->
+  spec_verify H h f = true -> spec_decode zdecomp h f = Some content ->
+  (is_zstd h = true -> forall c, In c (h_chunks h) -> c_clen c = 0 -> c_ulen c = 0) ->
+  (forall c, In c (h_chunks h) -> (N.to_nat (c_clen c) + 4 <= fuel)%nat) ->
+  Forall (req_valid h) rq ->
+  Forall2 (req_result_spec H zdecomp h f) rq (run_reqs H zdecomp h f fuel (open_state h f) rq).
+Proof.
+  intros H zdecomp p f h fuel content rq Hwf Hp Hv Hd Hph Hfuel Hval.
+  destruct (header_facts H p f h Hwf Hp) as (A & B & C).
+  exact (requests_all H zdecomp h f content fuel A B Hv Hd Hph Hfuel rq Hval).
+Qed.
+Print Assumptions C14_request_sequence.
 
 (** Non-vacuity, and the other compression type on a concrete file: the same request
     sequence (last chunk first, repeats, back and forth) on the zstd-type and on the
